@@ -3,14 +3,18 @@ package h
 import (
 	"bytes"
 	"crypto/x509"
+	"encoding/asn1"
+	"errors"
 	"fmt"
 	"os"
 	"path/filepath"
+	"strings"
 	"time"
 
 	"github.com/sassoftware/relic/v8/config"
 	"github.com/sassoftware/relic/v8/internal/signinit"
 	"github.com/sassoftware/relic/v8/lib/pkcs7"
+	"github.com/sassoftware/relic/v8/lib/pkcs9"
 	"github.com/sassoftware/relic/v8/server"
 	"github.com/sassoftware/relic/v8/signers"
 	"github.com/sassoftware/relic/v8/zz_verif/core"
@@ -111,8 +115,8 @@ func c10VerifyTime(r *core.Run) {
 			a := &c10bArtifact{ID: i, Verdicts: map[string]string{}}
 			a.Case = genSignCase(t, fmt.Sprintf("%dv%d", r.No, i), []string{"cat", "ps", "pe-coff", "msi", "appmanifest", "vsix", "mach-o", "jar"})
 			a.Key = core.Pick(t, "short-key", "short-rsa", "short-ec")
-			a.TSAKind = core.Pick(t, "tsa-kind", "valid", "none", "before-lifetime", "after-lifetime", "noeku", "valid", "graft")
-			if a.TSAKind == "graft" && a.Case.Mod != "cat" {
+			a.TSAKind = core.Pick(t, "tsa-kind", "valid", "none", "before-lifetime", "after-lifetime", "noeku", "valid", "graft", "substituted", "substituted-wrapped")
+			if (a.TSAKind == "graft" || strings.HasPrefix(a.TSAKind, "substituted")) && a.Case.Mod != "cat" {
 				a.Case = genSignCase(t, fmt.Sprintf("%dv%dg", r.No, i), []string{"cat"})
 			}
 			if a.Case.Mod == "appmanifest" && t.Chance(1, 2, "legacy-style") {
@@ -125,7 +129,7 @@ func c10VerifyTime(r *core.Run) {
 				key += "-nots"
 			case "before-lifetime":
 				nextOutcome.Skew = -40 * 24 * time.Hour
-			case "after-lifetime":
+			case "after-lifetime", "substituted", "substituted-wrapped":
 				nextOutcome.Skew = 45 * 24 * time.Hour
 			case "noeku":
 				nextOutcome.Kind = "noeku"
@@ -193,6 +197,27 @@ func c10VerifyTime(r *core.Run) {
 			a.Output = out
 			r.Fault("timestamp-grafted-from-another-signature")
 		}
+		// substitution: the authority truthfully attested a time after the
+		// signer certificate's lifetime; the holder of the artifact swaps the
+		// TSTInfo inside the token for one that names a time inside it (same
+		// imprint), once as it was wrapped and once inside one more OCTET
+		// STRING, and keeps the authority's signer block
+		for _, a := range arts {
+			if !strings.HasPrefix(a.TSAKind, "substituted") || a.Output == nil {
+				continue
+			}
+			out, err := c10Substitute(a.Output, a.TSAKind == "substituted-wrapped", a.GenTime.Add(-45*24*time.Hour))
+			if err == errNoToken {
+				a.TSAKind = "after-lifetime" // a legacy counter-signature: nothing to substitute in
+				continue
+			}
+			if err != nil {
+				r.Notes["internal_error"] = "substituting the TSTInfo: " + err.Error()
+				return
+			}
+			a.Output = out
+			r.Fault("timestamp-content-substituted")
+		}
 		verifyAll := func(phase string) {
 			for _, a := range arts {
 				if a.Output == nil {
@@ -239,7 +264,7 @@ func c10VerifyTime(r *core.Run) {
 				want = true // attested inside the lifetime: good for ever
 			case "none":
 				want = phase == "early" // judged at verification time
-			case "before-lifetime", "after-lifetime", "noeku", "graft":
+			case "before-lifetime", "after-lifetime", "noeku", "graft", "substituted", "substituted-wrapped":
 				want = false
 			}
 			r.Sig(fmt.Sprintf("verify/%s/%s/%s/want=%v", a.Case.Mod, a.TSAKind, phase, want))
@@ -257,4 +282,72 @@ func c10VerifyTime(r *core.Run) {
 			}
 		}
 	}
+}
+
+var errNoToken = errors.New("no RFC 3161 token among the unauthenticated attributes")
+
+// c10Substitute replaces the TSTInfo inside the timestamp token of a PKCS#7
+// artifact with one that names another time, leaving the authority's signer
+// block (and so its messageDigest attribute and signature) as issued.
+func c10Substitute(der []byte, double bool, when time.Time) ([]byte, error) {
+	psd, err := pkcs7.Unmarshal(der)
+	if err != nil {
+		return nil, err
+	}
+	si := &psd.Content.SignerInfos[0]
+	var tok pkcs7.ContentInfoSignedData
+	oid := pkcs9.OidSpcTimeStampToken
+	if si.UnauthenticatedAttributes.GetOne(oid, &tok) != nil {
+		oid = pkcs9.OidAttributeTimeStampToken
+		if si.UnauthenticatedAttributes.GetOne(oid, &tok) != nil {
+			return nil, errNoToken
+		}
+	}
+	ib, err := tok.Content.ContentInfo.Bytes()
+	if err != nil {
+		return nil, err
+	}
+	if len(ib) > 0 && ib[0] == 0x04 {
+		if _, err := asn1.Unmarshal(ib, &ib); err != nil {
+			return nil, err
+		}
+	}
+	var info pkcs9.TSTInfo
+	if _, err := asn1.Unmarshal(ib, &info); err != nil {
+		return nil, err
+	}
+	info.GenTime = asn1.RawValue{Tag: asn1.TagGeneralizedTime, Bytes: []byte(when.UTC().Format("20060102150405Z"))}
+	nb, err := asn1.Marshal(info)
+	if err != nil {
+		return nil, err
+	}
+	if double {
+		if nb, err = asn1.Marshal(nb); err != nil {
+			return nil, err
+		}
+	}
+	ci, err := pkcs7.NewContentInfo(pkcs9.OidTSTInfo, nb)
+	if err != nil {
+		return nil, err
+	}
+	tok.Content.ContentInfo = ci
+	var attrs pkcs7.AttributeList
+	for _, at := range si.UnauthenticatedAttributes {
+		if !at.Type.Equal(oid) {
+			attrs = append(attrs, at)
+		}
+	}
+	si.UnauthenticatedAttributes = attrs
+	if err := si.UnauthenticatedAttributes.Add(oid, tok); err != nil {
+		return nil, err
+	}
+	si.RawContent = nil
+	out, err := psd.Marshal()
+	if err != nil {
+		return nil, err
+	}
+	if bytes.Equal(out, der) {
+		return nil, errors.New("the artifact did not change")
+	}
+	return out, nil
 }
